@@ -223,7 +223,7 @@ def PredsInReg (ops : List Op) (N : Op) : Prop :=
 
 /-- **`insertRemote` keeps `index.top` equal to `IndexBuilder`'s definition** -/
 theorem insertRemote_topCol {w : Op → Nat} {ops : List Op} {s : Store} {N : Op}
-    (hw : WF (ops ++ [N])) (hf : Fresh ops N) (hp : PredsInReg ops N) (hi : StoreInv ops s)
+    (hw : OpsWF (ops ++ [N])) (hf : Fresh ops N) (hp : PredsInReg ops N) (hi : StoreInv ops s)
     (htop : s.map (·.top) = topCol s) :
     (insertRemote w s N).map (·.top) = topCol (insertRemote w s N) := by
   have hi' := insertRemote_inv (w := w) hw hf hi
@@ -420,7 +420,7 @@ theorem insertRemote_topCol {w : Op → Nat} {ops : List Op} {s : Store} {N : Op
 
 /-- the whole index after `insertRemote` -/
 theorem insertRemote_indexOk {w : Op → Nat} {ops : List Op} {s : Store} {N : Op}
-    (hw : WF (ops ++ [N])) (hf : Fresh ops N) (hp : PredsInReg ops N) (hi : StoreInv ops s)
+    (hw : OpsWF (ops ++ [N])) (hf : Fresh ops N) (hp : PredsInReg ops N) (hi : StoreInv ops s)
     (hvis : s.map (·.vis) = visibleCol s) (htop : s.map (·.top) = topCol s)
     (hwd : ∀ r ∈ s, widthOk w r) :
     (insertRemote w s N).map (·.vis) = visibleCol (insertRemote w s N) ∧
